@@ -85,6 +85,13 @@ CHECKS["C07"] = dict(
     design_ref="3/C07",
 )
 
+CHECKS["C10"] = dict(
+    technique="small-scope exhaustion of all segment subsets of small frames (fixed-pattern probing / AllSAT projection vs brute-force reference predicate) through an independent solver, returned arrays checked for being forced",
+    text="Frames 0x2, 0x3, 1x1..2x2, 1x3, 3x1: all 2^m subsets probed; 2x3/3x2 (2^17 subsets) by AllSAT projection against the reference predicate evaluated on every subset (quick: cycle form; thorough: path form and the 3x3 cycle form too); single_cycle on/off, rank and native encodings (native through a CEGAR loop because the split graph's flags are variables), the single_cycle_crossable alias. Reference: degrees in {0,1,2,4} ({0,2,4}), 4 only at interior points, one strand under union-find with straight pairs passing through at 4-way points. Both returned arrays must be forced (visited, 4-way) on every admitted pattern. Constructed end-to-end cases up to 3x3 (4x4). Exhaustive within the scope.",
+    note="Trusted base: vlib/lattice geometry, union-find strand model in checks/c10.analyse, vlib/refz3. 9/9 sensitivity mutants caught; the design-list mutant 'allow crossing on the boundary' is equivalent (boundary degree <= 3) and was dropped.",
+    design_ref="3/C10",
+)
+
 NOT_BUILT_REASON = "check not built yet in this session (planned in DESIGN.md section 3); not claimed until it runs quietly and is mutation-tested"
 
 def main():
